@@ -23,11 +23,16 @@ pub enum AuthVar {
     RightOtherArgs,
     /// the right principal for the root call only (nested invocations not covered)
     RootOnly,
+    /// every address approves whatever is asked of it during this call (custom accounts with a
+    /// permissive policy, pre-authorised sessions): nothing about authorisation is exercised, so
+    /// that behaviour an exact authorisation tree would mask — moving another amount, paying
+    /// another receiver than the call states — becomes observable
+    Everyone,
 }
 
 impl AuthVar {
     pub fn is_fault(&self) -> bool {
-        *self != AuthVar::Right
+        !matches!(self, AuthVar::Right | AuthVar::Everyone)
     }
     pub fn name(&self) -> &'static str {
         match self {
@@ -40,6 +45,7 @@ impl AuthVar {
             AuthVar::Nobody => "nobody",
             AuthVar::RightOtherArgs => "right_other_args",
             AuthVar::RootOnly => "root_only",
+            AuthVar::Everyone => "everyone_permissive",
         }
     }
     pub fn pick_fault(rng: &mut Rng, allowed: &[AuthVar]) -> AuthVar {
@@ -158,9 +164,12 @@ pub struct AuthCtx {
 }
 
 /// (who authorises, whether it authorises different arguments)
-pub fn resolve_auth(a: AuthVar, c: &AuthCtx) -> Option<(usize, bool)> {
+pub fn resolve_auth(sim: &mut crate::host::Sim, a: AuthVar, c: &AuthCtx) -> Option<(usize, bool)> {
+    if a == AuthVar::Everyone {
+        sim.permissive_next = true;
+    }
     match a {
-        AuthVar::Right | AuthVar::RootOnly => Some((c.right, false)),
+        AuthVar::Right | AuthVar::RootOnly | AuthVar::Everyone => Some((c.right, false)),
         AuthVar::RightOtherArgs => Some((c.right, true)),
         AuthVar::Former => Some((c.former.unwrap_or(c.stranger), false)),
         AuthVar::OtherRole => Some((c.other_role, false)),
